@@ -36,6 +36,21 @@ type RefSpec struct {
 	// PreUnindexed (with Pre): the manifest is in the registry before the run but no
 	// referrers index lists it - stored by a client that does not maintain the tag schema
 	PreUnindexed bool `json:"pre_unindexed,omitempty"`
+	// DescVar: what the descriptor handed to Push carries besides media type, digest and size:
+	// 0 = nothing, 1 = annotations of its own (as an entry of an image layout's index has),
+	// 2 = an artifact type of its own. What is listed comes from the manifest all the same.
+	DescVar int `json:"desc_var,omitempty"`
+}
+
+// pushDesc: the descriptor a caller hands to Push (see RefSpec.DescVar).
+func pushDesc(d ocispec.Descriptor, v int) ocispec.Descriptor {
+	switch v {
+	case 1:
+		d.Annotations = map[string]string{"org.opencontainers.image.ref.name": "from-a-layout", "k": "of-the-descriptor"}
+	case 2:
+		d.ArtifactType = "application/vnd.example.of-the-descriptor"
+	}
+	return d
 }
 
 type ReferrersParams struct {
@@ -95,6 +110,9 @@ func (p *referrersProp) Gen(r *Rand, tier string, idx int) any {
 		}
 		if r.Chance(0.25) {
 			rs.SubjVar = r.Range(1, 2)
+		}
+		if r.Chance(0.2) {
+			rs.DescVar = r.Range(1, 2)
 		}
 		if rs.Pre && r.Chance(0.25) {
 			rs.PreUnindexed = true
@@ -368,7 +386,7 @@ func (p *referrersProp) run(rc *RunCtx, rp *ReferrersParams, info *RunInfo) *Ver
 					mu.Unlock()
 					var err error
 					if op.Op == "push" {
-						err = repo.Push(ctx, refs[op.Ref].desc, bytes.NewReader(refs[op.Ref].data))
+						err = repo.Push(ctx, pushDesc(refs[op.Ref].desc, rp.Refs[op.Ref].DescVar), bytes.NewReader(refs[op.Ref].data))
 					} else {
 						err = repo.Delete(ctx, refs[op.Ref].desc)
 					}
